@@ -89,7 +89,7 @@ class ExprMixin:
           if rp:
             v = self.module_name(source.load(self.repo, rp), imp[2])
           else:
-            v = ModuleRef(None, dotted)
+            v = self.builtins.get(dotted) or ModuleRef(None, dotted)   # `from lib import f` with a modelled f
     if v is not None:
       self.modcache[key] = v
     return v
@@ -729,6 +729,8 @@ class ExprMixin:
       return
     if isinstance(target, ast.Attribute):
       recv = self.eval(target.value)
+      if isinstance(recv, V) and isinstance(recv.sort, S.Opt) and self.heap_binding(recv.sort.inner) is not None:
+        recv = self.coerce(recv, recv.sort.inner)     # attribute store on an Optional object: obligation `is not None`
       if isinstance(recv, V) and self.heap_binding(recv.sort) is not None:
         self.heap_write(recv, target.attr, val)
         return
